@@ -84,6 +84,14 @@ struct Monitor
         fed.push_back(f);
         lastOp = op;
         c.note("history=" + describeFrames(fed, fed.size() - 1));
+        if (fed.size() % 17 == 16)
+        {
+            ASAM::CMP::Decoder copy(dec);
+            ASAM::CMP::Decoder other;
+            other = copy;
+            dec = std::move(other);
+            c.count("decoder_copies");
+        }
         auto got = decodeCopy(dec, f);
         bool tecmp = !f.empty() && f[0] == 0;
         auto exp = ref.feed(f);
